@@ -314,6 +314,9 @@ class Outcome:
             print('KNOWN-FINDING: property=%s %s [%s, %d occurrence(s) this run]' % (
                 self.pid, k.get('what', kid), kid, len(fs)))
         rep_dir = VERIF / 'replays' / self.pid
+        if rep_dir.exists():
+            for old in rep_dir.glob('%s_%s_*.json' % (self.pid, self.tier)):
+                old.unlink()
         lines = []
         if unlisted:
             rep_dir.mkdir(parents=True, exist_ok=True)
